@@ -252,6 +252,20 @@ fn seeds_for(e: Endian) -> Vec<Seed> {
             .add_memory_info(synth::MemoryInfo::new(e, 0xffff_ffff_ffff_f000, 0, 1, 0x1000, 0x1_0000, 1, 0));
         out.push(finish("memory", e, d));
     }
+    // ---- Linux text streams whose lines have blank / whitespace-only keys and values, no separator, CR line ends
+    {
+        let d = new()
+            .add_system_info(sysinfo(e, PROCESSOR_ARCHITECTURE_AMD64, P::Linux))
+            .set_linux_lsb_release(b"DISTRIB_ID= \nDISTRIB_RELEASE=\n =x\nDISTRIB_CODENAME=\t \t\nnoseparator\n=\nDISTRIB_DESCRIPTION=\"\"\r\n")
+            .set_linux_proc_status(b"Name:\t \nPid:\t\n\t:\t1\n:\nUid:\t1\t 2\r\n")
+            .set_linux_cpu_info(b"processor\t: \nmicrocode\t:\t \n \t: 3\nFeatures\t: \n\n\nmodel name : \n")
+            .set_linux_environ(b" = \0=\0 \0A\0");
+        // (with a thread, so that processing gets as far as reading the text streams)
+        let stack = synth::Memory::with_section(sec().append_repeated(0, 32), 0x7000_0000);
+        let ctx = synth::amd64_context(e, 0x0040_1010, 0x7000_0010);
+        let d = d.add_thread(synth::Thread::new(e, 5, &stack, &ctx)).add_memory(stack).add(ctx);
+        out.push(finish("linux-blank-values", e, d));
+    }
     // ---- Linux text streams
     {
         let mut d = new().add_system_info(sysinfo(e, PROCESSOR_ARCHITECTURE_INTEL, P::Linux));
@@ -266,6 +280,10 @@ fn seeds_for(e: Endian) -> Vec<Seed> {
         d = d.add_stream(simple(ST::LinuxCmdLine as u32, sec().append_bytes(b"/bin/x\0-a\0")));
         d = d.add_stream(simple(ST::LinuxAuxv as u32, sec().D32(3).D32(0x40).D32(0).D32(0)));
         d = d.add_stream(simple(ST::LinuxDsoDebug as u32, sec().D32(1).D32(0).D32(0).D32(0)));
+        // (with a thread, so that processing gets as far as reading the text streams)
+        let stack = synth::Memory::with_section(sec().append_repeated(0, 32), 0x7000_0000);
+        let ctx = synth::x86_context(e, 0x0040_0010, 0x7000_0010);
+        d = d.add_thread(synth::Thread::new(e, 5, &stack, &ctx)).add_memory(stack).add(ctx);
         out.push(finish("linux", e, d));
     }
     // ---- mac crash info, record versions 1, 4 and 5 + boot args
